@@ -5,16 +5,22 @@ import (
 	"net"
 	"strings"
 
-	"golang.org/x/crypto/bcrypt"
-
 	"github.com/postalsys/muti-metroo/internal/config"
 )
 
 // User / AuthCfg describe a socks5.auth configuration (replay format).
+// For a password_hash the harness records how it was produced: HashValid says
+// that Hash is a well-formed bcrypt hash and HashOf is the plaintext it was
+// generated from. A Hash with HashValid=false (malformed, truncated, a
+// plaintext put into the hash field, "!" ...) matches no password at all.
+// This knowledge - not a call into bcrypt - is the ground truth of the
+// monitors and of the model's bcrypt oracle.
 type User struct {
-	Name string `json:"name"`
-	Pass string `json:"pass"`
-	Hash string `json:"hash"`
+	Name      string `json:"name"`
+	Pass      string `json:"pass"`
+	Hash      string `json:"hash"`
+	HashValid bool   `json:"hash_valid,omitempty"`
+	HashOf    string `json:"hash_of,omitempty"`
 }
 
 type AuthCfg struct {
@@ -56,15 +62,17 @@ func (ac AuthCfg) Coq() string {
 }
 
 // Matches is the monitor's reading of "credentials matching a configured
-// user": some configured user has that name and either a hash that bcrypt
-// accepts for the password, or no hash and exactly that non-empty password.
+// user", from the harness's own knowledge of the configuration: some
+// configured user has exactly that name and either a well-formed hash that
+// was generated from exactly that password, or no hash and exactly that
+// non-empty plaintext password.
 func (ac AuthCfg) Matches(u, p []byte) bool {
 	for _, usr := range ac.Users {
 		if usr.Name != string(u) {
 			continue
 		}
 		if usr.Hash != "" {
-			if bcrypt.CompareHashAndPassword([]byte(usr.Hash), p) == nil {
+			if usr.HashValid && usr.HashOf == string(p) {
 				return true
 			}
 		} else if usr.Pass != "" && usr.Pass == string(p) {
@@ -75,7 +83,8 @@ func (ac AuthCfg) Matches(u, p []byte) bool {
 }
 
 // BcryptTable lists, as a Gallina association list, the (hash, password)
-// pairs of this configuration that bcrypt accepts for password p.
+// pairs of this configuration that a correct bcrypt comparison accepts for
+// password p (by construction of the hashes, not by calling bcrypt).
 func (ac AuthCfg) BcryptTable(p []byte) string {
 	var items []string
 	seen := map[string]bool{}
@@ -84,7 +93,7 @@ func (ac AuthCfg) BcryptTable(p []byte) string {
 			continue
 		}
 		seen[u.Hash] = true
-		if bcrypt.CompareHashAndPassword([]byte(u.Hash), p) == nil {
+		if u.HashValid && u.HashOf == string(p) {
 			items = append(items, fmt.Sprintf("(%s, %s)", hexBytes([]byte(u.Hash)), hexBytes(p)))
 		}
 	}
